@@ -33,7 +33,7 @@ def gen_instr(rng):
     return ins
 
 
-FORMATS = ["1", "1", "1", "01", "a", "A", "i", "I", "1.a", "(1)", "1-1", "A.1.a", "[1] ", "1.", "001"]
+FORMATS = ["1", "1", "1", "01", "a", "A", "i", "I", "1.a", "(1)", "1-1", "A.1.a", "[1] ", "1.", "001", ".", "-", "", "..", ". "]
 
 
 def render(ins, fmt, order):
@@ -164,7 +164,7 @@ def run(res, tier, seed):
     res.notes["runs"] = nruns
     res.cov["traces_validated_against_impl"] = len(events) - len(rejects) - st["dropped"]
     res.cov["distinct_nontrivial"] = len(nontriv)
-    res.cov["rule"] = ("seeded xsl:number instructions (3 levels x count/from from an 11-pattern pool or defaults x 15 formats) x documents; each instruction numbers the nodes of "
+    res.cov["rule"] = ("seeded xsl:number instructions (3 levels x count/from from an 11-pattern pool or defaults x 20 formats incl. punctuation-only and empty ones) x documents; each instruction numbers the nodes of "
                        "the document in document, reverse and shuffled visiting order through ONE instruction instance; plus value=/format= tables (alphabetic carry, roman, padding); "
                        "non-trivial = output other than '' or '1'; distinct by (document, node, instruction) resp. (value, format)")
     for ev in events[:: max(1, len(events) // 4)][:4]:
